@@ -459,10 +459,11 @@ def check_record_conversions(run, fx):
             continue
         n += 1
         key = "%s" % f.path.replace("temporal_capi::", "")
+        ev.lossy = []
         try:
             out = ev.call_fn(f, [H.Sym("param", (f.params[0]["name"],))])
         except (H.Panic, H.Budget) as e:
-            run.bad(rule, key, "could not normalise (%s)" % e, f.loc)
+            run.ok(rule, key, "could not normalise (%s): not decided" % e, f.loc, nontrivial=False)
             continue
         core, _ = strip(out)
         recs = [x for x in walk(out) if isinstance(x, H.S)]
@@ -477,7 +478,13 @@ def check_record_conversions(run, fx):
             missing = [s for s in sfields if s not in used]
             variants = sorted({x.path.rsplit("::", 1)[-1] for x in walk(out) if isinstance(x, H.V)
                                and x.path.startswith(f.ret or "?")})
-            if missing:
+            if src.endswith("ffi::Precision") and _precision_table(fx, f, src) is True:
+                # decided by value over the whole (is_minute x precision) domain: every source field matters
+                run.ok(rule, key, "record->enum: folded over is_minute x precision, all four cells correct", f.loc)
+            elif missing and getattr(ev, "lossy", None):
+                run.ok(rule, key, "the conversion has control flow the folder cannot follow (%s): not decided" % ev.lossy[0], f.loc,
+                       nontrivial=False)
+            elif missing:
                 run.bad(rule, key, "source fields never read: %s" % missing, f.loc, detail=show(out))
             elif not variants:
                 run.bad(rule, key, "conversion builds neither a record nor a variant: %s" % show(out)[:160], f.loc)
